@@ -224,12 +224,7 @@ Proof.
   generalize 0. induction cs as [|c r IH]; intros idx; [done|]. cbn [fpt_go]. by rewrite <- IH.
 Qed.
 
-(** * hypotheses on the tree *)
-Definition members_named (x : tree) : Prop :=
-  forall n, n ∈ nodes_t x -> Z.land (rd_type (tdata n)) 255 = c_cJSON_Object ->
-    forall c, c ∈ tchildren n -> rd_key (tdata c) <> None.
-Definition small_nodes (x : tree) : Prop :=
-  forall n, n ∈ nodes_t x -> (Z.of_nat (length (tchildren n)) <= ULONG_MAX)%Z.
+(** * hypotheses on the tree ([members_named], [small_nodes]: PointerHeapDefs.v) *)
 
 Lemma nodes_t_child_sub i d cs c n : c ∈ cs -> n ∈ nodes_t c -> n ∈ nodes_t (T i d cs).
 Proof. intros Hc Hn. rewrite nodes_t_unfold. right. apply elem_of_nodes. by exists c. Qed.
